@@ -69,4 +69,11 @@ CHECKS.update({
             "note": "Trusted: value projection. Spellings outside the modelled fragment (unknown escapes, > 40 digits) are only required not to crash.",
             "technique": "TLA+ literal lexer and exact binary64 rounding (spec/Lexer.tla, Dbl.tla) + TLC trace validation of recorded literal evaluations (spec/Trace_Lit.tla)"},
 })
+CHECKS.update({
+    "C01": {"text": "No action of the specification has the outcome 'crash': every recorded compile/evaluate call must end in a value or an error. Recorded: every built-in function, macro and type constructor x argument tuples from the boundary pool "
+                    "(arity <= 1 exhaustive with and without receiver, arity 2 exhaustive in the thorough tier), every operator x pool^2, as bound values and as literals (so the folding compiler runs the operation too); "
+                    "grammar-derived, token-mutated, token-soup and random UTF-8 sources (also validated by the grammar: accept/reject and error locations); 17 nesting shapes as depth ladders in child processes on 8 MB and 2 MB stacks.",
+            "note": "Trusted: catch_unwind, child exit status and a 60 s watchdog as crash/abort/hang detectors. Stack exhaustion is empirical per build profile (harness: opt-level 1) and stack size; known ladder findings are listed per shape and depth.",
+            "technique": "TLA+ specification whose actions have only ok/err outcomes (spec/Trace_Total.tla, Trace_Eval.tla with ONLYCRASH, Trace_Parse.tla) + TLC trace validation of recorded executions of the real API"},
+})
 NOT_YET = {}
